@@ -391,4 +391,14 @@ def addressable(repo: Repo) -> RuleRun:
 
 addressable.rule_id = "C19.ADDRESSABLE"
 
-RULES = [grid_roles, slice_roles, partition, merged_roles, assemble_walk, backport_local, delete_survives, tier_order, no_class_state, addressable]
+def scalar_amount(repo: Repo) -> RuleRun:
+    """'tier k = the base moved k times along the normal': the number-or-vector test of Extrude / ExtrudedShape / ExtrudedStack accepts every scalar."""
+    from ..params import scalar_dispatch_rule
+
+    return scalar_dispatch_rule(repo, PROP, "C19.SCALAR-AMOUNT")
+
+
+scalar_amount.rule_id = "C19.SCALAR-AMOUNT"
+
+
+RULES = [grid_roles, slice_roles, partition, merged_roles, assemble_walk, backport_local, delete_survives, tier_order, no_class_state, addressable, scalar_amount]
